@@ -253,7 +253,7 @@ def oracle_builtin(case, r):
 
 # ------------------------------------------------------------------------------------ route T2: candidate enumeration
 
-L1_LOOPS = {"Skc.L1.LoopsCbs": ["loop_anomaly_intervals"]}
+L1_LOOPS = {"Skc.L1.LoopsCbs": ["loop_anomaly_intervals"], "Skc.L1.LoopsCbsProps": ["loop_anomaly_intervals"]}
 
 
 def gen_cands(rng, nmax):
